@@ -291,9 +291,32 @@ func (c *Ctx) ruleMsgLoopParity(rule string, sizeKey, marshalKey string) {
 	}
 	// extensions and unknown bytes handled by both
 	for _, pair := range [][3]string{{"internal/impl.(*MessageInfo).sizeExtensions", "internal/impl.(*MessageInfo).appendExtensions", "extensions"}, {"internal/impl.(*MessageInfo).getUnknownBytes", "internal/impl.(*MessageInfo).getUnknownBytes", "unknown bytes"}} {
-		hs := containsCall(fs.Info(), fs.Decl.Body, pair[0]) != nil
-		hm := containsCall(fm.Info(), fm.Decl.Body, pair[1]) != nil
-		R.Check(hs && hm, rule, sizeKey+" ~ "+short(marshalKey)+" "+pair[2], P.Pos(fs.Decl), "handled by both passes", pair[2]+" are handled by only one of the two passes")
+		cs := containsCall(fs.Info(), fs.Decl.Body, pair[0])
+		cm := containsCall(fm.Info(), fm.Decl.Body, pair[1])
+		R.Check(cs != nil && cm != nil, rule, sizeKey+" ~ "+short(marshalKey)+" "+pair[2], P.Pos(fs.Decl), "handled by both passes", pair[2]+" are handled by only one of the two passes")
+		if cs != nil && cm != nil {
+			gs, gm := enclosingGuards(fs.Decl.Body, cs), enclosingGuards(fm.Decl.Body, cm)
+			R.Check(gs == gm, rule, sizeKey+" ~ "+short(marshalKey)+" "+pair[2]+" guard", P.Pos(cs), "both under {"+gs+"}", pair[2]+" are counted by the size pass under {"+gs+"} but written by the marshal pass under {"+gm+"}: for a message on which the conditions differ Size and the marshaled length disagree")
+		}
 	}
 	var _ types.Type
+}
+
+// enclosingGuards: the conditions of the if statements enclosing n (in their
+// body or init), outermost first, with `!` for else branches.
+func enclosingGuards(root ast.Node, n ast.Node) string {
+	pm := parentMap(root)
+	var gs []string
+	var cur ast.Node = n
+	for p := pm[cur]; p != nil; cur, p = p, pm[p] {
+		if is, ok := p.(*ast.IfStmt); ok {
+			switch {
+			case cur == ast.Node(is.Body) || cur == is.Init:
+				gs = append([]string{exprStr(is.Cond)}, gs...)
+			case cur == is.Else:
+				gs = append([]string{"!(" + exprStr(is.Cond) + ")"}, gs...)
+			}
+		}
+	}
+	return strings.Join(gs, " ; ")
 }
